@@ -91,10 +91,97 @@ func (fr *Frame) execCall(v ssa.Value, c *ssa.CallCommon, in ssa.Instruction) {
 // (recorded as out-of-subset so that nothing proved depends on it silently).
 func (fr *Frame) externalResult(v ssa.Value, c *ssa.CallCommon, in ssa.Instruction, why string) {
 	fr.ex.oos("%s: %s at %s", shortName(fr.fn.String()), why, fr.pos(in))
+	if c != nil {
+		// an unknown callee may write through every pointer it is handed (directly, inside an
+		// interface, or in a variadic argument list): that memory is unknown afterwards
+		var args []Val
+		for _, a := range c.Args {
+			args = append(args, fr.get(a))
+		}
+		fr.havocEscaped(args)
+	}
 	if v == nil {
 		return
 	}
 	fr.vals[v] = fr.freshResults(c.Signature().Results(), "ext")
+}
+
+// havocEscaped makes the memory reachable from the given values unknown.
+func (fr *Frame) havocEscaped(args []Val) {
+	seen := map[string]bool{}
+	var visit func(v Val, depth int)
+	visit = func(v Val, depth int) {
+		if depth > 4 {
+			return
+		}
+		switch x := v.(type) {
+		case IfaceV:
+			visit(x.Dyn, depth+1)
+		case TupleV:
+			for _, e := range x {
+				visit(e, depth+1)
+			}
+		case PtrV:
+			if x.Cell == nil || x.Cell.Ghost != nil {
+				return
+			}
+			k := cellKey(x)
+			if seen[k] {
+				return
+			}
+			seen[k] = true
+			if isEncoderPtr(types.NewPointer(x.Elem)) {
+				return
+			}
+			func() {
+				defer func() { recover() }()
+				if nv := fr.freshOfType(x.Elem, "ext:"+x.Cell.Name); nv != nil {
+					fr.store(x, nv)
+				}
+			}()
+			for _, al := range fr.ex.ptrAliases {
+				if al.cell == x.Cell {
+					visit(al.target, depth+1)
+				}
+			}
+		case SliceV:
+			if x.Cell == nil {
+				return
+			}
+			pk := cellKey(PtrV{Cell: x.Cell, Path: x.Path})
+			if seen["s"+pk] {
+				return
+			}
+			seen["s"+pk] = true
+			// interface / pointer elements kept on the side (variadic argument lists)
+			for key, val := range fr.ex.valCells {
+				if strings.HasPrefix(key, pk+"[") || strings.HasPrefix(key, pk+".") {
+					visit(val, depth+1)
+				}
+			}
+			for _, al := range fr.ex.ptrAliases {
+				if al.cell == x.Cell {
+					visit(al.target, depth+1)
+				}
+			}
+			if x.Cell.Name == "varargs" {
+				return
+			}
+			func() {
+				defer func() { recover() }()
+				old := fr.readPath(x.Cell, x.Path)
+				nv := Fresh("ext:"+x.Cell.Name, old.Sort)
+				if len(x.Path) == 0 && x.Cell.Dyn {
+					fr.mem[x.Cell] = nv
+				} else {
+					fr.store(PtrV{Cell: x.Cell, Path: x.Path}, nv)
+				}
+			}()
+		}
+	}
+	for _, a := range args {
+		visit(a, 0)
+	}
 }
 
 func (fr *Frame) freshResults(res *types.Tuple, prefix string) Val {
